@@ -224,7 +224,10 @@ fn main() {
                         if round % 4 == 0 { 64 * cap } else { 3 * cap }];
                     for total in sizes {
                         let Some((body, ctype, payload)) = make_body(&mut r, kind, total) else { continue };
-                        for framing in ["length", "chunked", "chunked-ext-trailers"] {
+                        // "length+chunked": a (small) Content-Length followed by Transfer-Encoding: chunked; the
+                        // chunked framing governs (RFC 9112 6.3) and hyper keeps the Content-Length header in
+                        // the map, so nothing may trust that header for the size of the body
+                        for framing in ["length", "chunked", "chunked-ext-trailers", "length+chunked"] {
                             nreq += 1;
                             let n = format!("b{}", nreq);
                             let mut hdr = vec![
@@ -234,6 +237,9 @@ fn main() {
                             let wire_body = if framing == "length" {
                                 body.clone()
                             } else {
+                                if framing == "length+chunked" {
+                                    hdr.push(("content-length".to_string(), r.gen_range(0..=body.len().min(cap)).to_string()));
+                                }
                                 hdr.push(("transfer-encoding".to_string(), "chunked".to_string()));
                                 let mut sizes = vec![];
                                 let mut left = body.len();
@@ -248,7 +254,7 @@ fn main() {
                                     sizes.push(s);
                                     left -= s;
                                 }
-                                httpc::chunked_body(&body, &sizes, framing != "chunked", framing != "chunked")
+                                httpc::chunked_body(&body, &sizes, framing == "chunked-ext-trailers", framing == "chunked-ext-trailers")
                             };
                             let target = format!("/{}/{}/{}", kind, lim, n);
                             let mut req = httpc::build_request("PUT", &target, &hdr, None);
